@@ -135,6 +135,8 @@ def build_models(spec, registry=None, module='pbt_generated'):
             if m['constraints']:
                 meta_attrs['constraints'] = [make_constraint(c) for c in m['constraints']]
             attrs = {'__module__': module, 'Meta': type('Meta', (), meta_attrs)}
+            if S.pk_of(m) != 'id':
+                attrs[S.pk_of(m)] = models.AutoField(primary_key=True)
             for f in m['fields']:
                 attrs[f['name']] = make_field(f)
             out[(app, name)] = type(str(name), (models.Model,), attrs)
